@@ -11,13 +11,14 @@ TypeDesc(k, t) ==
                                    attrs |-> [j \in DOMAIN dv[i].attrs |-> LET e == dv[i].attrs[j] IN
                                                 [name |-> e.attr, view |-> IF e.sub[1] = "-" \/ e.sub[2] = "=" THEN "" ELSE e.sub[2]]]]]]
 GraphDesc(k) ==
-  [g |-> k.g, order |-> k.order, req |-> k.req, mo |-> k.mo, coll |-> TopColl(k.g), views |-> SetSeq(ViewsOf(k)), methods |-> Methods(k),
+  [g |-> k.g, order |-> k.order, req |-> k.req, mo |-> k.mo, cd |-> k.cd, collFixed |-> CollFixed(k), coll |-> TopColl(k.g), views |-> SetSeq(ViewsOf(k)), methods |-> Methods(k),
    types |-> [i \in DOMAIN TypesOf(k.g) |-> TypeDesc(k, TypesOf(k.g)[i])]]
 \* one description per variant (printed with its first case), one line per finished case
-FirstCase == cfg.fixed = "-" /\ cfg.chosen = "" /\ bad = {} /\ val = CHOOSE v \in ValueSpace(K) : TRUE
+FirstCase == cfg.fixed = CollFixed(K) /\ cfg.chosen = "" /\ bad = {} /\ val = CHOOSE v \in ValueSpace(K) : TRUE
 Emit ==
   /\ pc = "server" /\ FirstCase => PrintT(<<"VEC", ToJson([graph |-> GraphDesc(K)])>>)
   /\ pc = "done" =>
        PrintT(<<"VEC", ToJson([cfg |-> cfg, val |-> SetSeq(val), bad |-> SetSeq(bad),
+          sval |-> SetSeq(IF CollFixed(K) # "-" THEN Expected ELSE val),    \* what the service's own result type can hold
           pred |-> [sres |-> sres, wireKeys |-> SetSeq(wireKeys), viewHeader |-> viewHeader, clientKeys |-> SetSeq(clientKeys), cerr |-> cerr, effView |-> EffView]])>>)
 ===============================================================================
